@@ -78,6 +78,8 @@ pub struct SC {
     pub m_seq: u64,
     pub m_over: bool,
     pub n0: Option<Vec<u8>>,
+    /// C16: where the secrets sat in the live context right after setup
+    pub scan0: Option<Vec<Vec<usize>>>,
     pub aead_key: Option<Vec<u8>>,
     pub nonces: HashSet<Vec<u8>>,
     pub fail_armed: bool,
@@ -97,6 +99,7 @@ pub struct RC {
     pub mode_r: ModeR,
     pub exports: HashMap<(Vec<u8>, usize), Result<Vec<u8>, Fail>>,
     pub fail_open_armed: bool,
+    pub scan0: Option<Vec<Vec<usize>>>,
 }
 
 pub struct World {
@@ -338,7 +341,7 @@ impl World {
         if model_only {
             if let Some((enc, ctx, _)) = refr {
                 let ident = self.intern(mk_ident(&enc));
-                *slot(&mut self.scs, c) = Some(SC { cfg: cfg.clone(), real: None, twin: None, refc: Some(ctx), enc, ident, recs: vec![], m_seq: 0, m_over: false, n0: None, aead_key: None, nonces: HashSet::new(), fail_armed: false, exports: HashMap::new() });
+                *slot(&mut self.scs, c) = Some(SC { cfg: cfg.clone(), real: None, twin: None, refc: Some(ctx), enc, ident, recs: vec![], m_seq: 0, m_over: false, n0: None, aead_key: None, nonces: HashSet::new(), fail_armed: false, exports: HashMap::new(), scan0: None });
                 cov.hit("setup_s.model_only");
             }
             return Ok(());
@@ -423,7 +426,8 @@ impl World {
         } else {
             None
         };
-        *slot(&mut self.scs, c) = Some(SC { cfg: cfg.clone(), real: Some(ctx), twin, refc, enc, ident, recs: vec![], m_seq: 0, m_over: false, n0: None, aead_key, nonces: HashSet::new(), fail_armed: false, exports: HashMap::new() });
+        let scan0 = if self.p == P::C16 { Some(ctx.peek(&crate::world_ops::pats_of_pub(refc.as_ref()))) } else { None };
+        *slot(&mut self.scs, c) = Some(SC { cfg: cfg.clone(), real: Some(ctx), twin, refc, enc, ident, recs: vec![], m_seq: 0, m_over: false, n0: None, aead_key, nonces: HashSet::new(), fail_armed: false, exports: HashMap::new(), scan0 });
         Ok(())
     }
 
@@ -496,7 +500,7 @@ impl World {
         if model_only {
             if let Some((ctx, _)) = refr {
                 let ident = self.intern(ident_v);
-                *slot(&mut self.rcs, c) = Some(RC { cfg: cfg.clone(), real: None, twin: None, refc: Some(ctx), ident, m_seq: 0, m_over: false, sk_r, enc, mode_r: mode, exports: HashMap::new(), fail_open_armed: false });
+                *slot(&mut self.rcs, c) = Some(RC { cfg: cfg.clone(), real: None, twin: None, refc: Some(ctx), ident, m_seq: 0, m_over: false, sk_r, enc, mode_r: mode, exports: HashMap::new(), fail_open_armed: false, scan0: None });
                 cov.hit("setup_r.model_only");
             }
             return Ok(());
@@ -549,7 +553,9 @@ impl World {
             None
         };
         let ident = self.intern(ident_v);
-        *slot(&mut self.rcs, c) = Some(RC { cfg: cfg.clone(), real: Some(ctx), twin, refc: refr.map(|x| x.0), ident, m_seq: 0, m_over: false, sk_r, enc, mode_r: mode, exports: HashMap::new(), fail_open_armed: false });
+        let refc_r = refr.map(|x| x.0);
+        let scan0 = if self.p == P::C16 { Some(ctx.peek(&crate::world_ops::pats_of_pub(refc_r.as_ref()))) } else { None };
+        *slot(&mut self.rcs, c) = Some(RC { cfg: cfg.clone(), real: Some(ctx), twin, refc: refc_r, ident, m_seq: 0, m_over: false, sk_r, enc, mode_r: mode, exports: HashMap::new(), fail_open_armed: false, scan0 });
         Ok(())
     }
 
